@@ -609,6 +609,26 @@ def find_instances(tt):
     return out
 
 
+def sort_attrs(t):
+    """attribute order of a tree JSON as cimproto.tt_to_json gives it (the SAX attribute dict is unordered)"""
+    if not isinstance(t, dict) or 'e' not in t:
+        return t
+    return {'e': t['e'], 'a': sorted(t['a'], key=lambda kv: (common.from_cps(kv[0]), common.from_cps(kv[1]))),
+            'c': [sort_attrs(k) for k in t['c']]}
+
+
+def real_body_tree(rsp):
+    """tupletree (JSON) pywbem's own receiving side makes of a 200 body; None when it cannot"""
+    if rsp['status'] != 200:
+        return None
+    import cimproto
+    from pywbem._tupletree import xml_to_tupletree_sax
+    try:
+        return cimproto.tt_to_json(xml_to_tupletree_sax(rsp['body'], 'export response'))
+    except Exception:  # noqa
+        return None
+
+
 def analyse(bodyk):
     """expat/tupletree + parse_export_request on the octets the handler reads, in this process"""
     import pywbem
@@ -771,7 +791,7 @@ def run_session(case, async_stop=False):
         rsp, problem = parse_response(buf)
         exc = _handler_excs[nexc] if len(_handler_excs) > nexc else None
         # ---- model inputs
-        mreq = {'ev': 'req', 'method': common.cps(ev['method']), 'blen': len(body),
+        mreq = {'ev': 'req', 'method': common.cps(ev['method']), 'blen': len(body), 'hex': body.hex(),
                 'headers': [[common.cps(k), common.cps(v)] for k, v in hdrs], 'alloc': ALLOC_LIMIT, 'inst': 'shared'}
         k = None
         an = None
@@ -805,7 +825,7 @@ def run_session(case, async_stop=False):
             real_obs.append({'rsp': {'status': rsp['status'], 'reason': common.cps(rsp['reason']), 'body': btxt,
                                      'headers': [[common.cps(a), common.cps(b)] for a, b in rsp['headers']
                                                  if a.lower() not in ('server', 'date')]},
-                             'nread': None,
+                             'nread': None, 'bodytree': real_body_tree(rsp),
                              'wire': common.cps(buf[:buf.find(b'\r\n\r\n') + 4].decode('latin-1'))})
         count('intent:' + ev['intent'])
         count('status:%s' % (rsp['status'] if rsp else (problem or st)))
@@ -1091,12 +1111,23 @@ def unit_k(run):
         reqs.append({'op': 'int', 's': common.cps(s)})
         v = py_int(s)
         real.append(None if v is None else str(v))
+    chunks = [b'a', b'<', b'\x7f', b'\xc2\x80', b'\xdf\xbf', b'\xe0\xa0\x80', b'\xef\xbf\xbf', b'\xed\x9f\xbf', b'\xee\x80\x80',
+              b'\xf0\x90\x80\x80', b'\xf4\x8f\xbf\xbf', b'\xc0\xaf', b'\xc1\xbf', b'\xe0\x9f\xbf', b'\xed\xa0\x80', b'\xed\xbf\xbf',
+              b'\xf0\x8f\xbf\xbf', b'\xf4\x90\x80\x80', b'\xf5\x80\x80\x80', b'\xff', b'\x80', b'\xbf', b'\xc2', b'\xe2\x82', b'\xf0\x9f\x98',
+              b'\xef\xbb\xbf', '€'.encode(), 'é'.encode(), '\U0001F600'.encode(), b'\xe2\x28\xa1', b'\xf0\x28\x8c\xbc']
+    for _ in range(n):
+        bs = b''.join(rng.choice(chunks) for _ in range(rng.randint(0, 5)))
+        reqs.append({'op': 'utf8', 'hex': bs.hex()})
+        try:
+            real.append(common.cps(bs.decode('utf-8')))
+        except UnicodeDecodeError:
+            real.append(None)
     answers = common.run_driver(PROP, reqs)
     for rq, a, r in zip(reqs, answers, real):
-        run.case({'unit': rq['op'], 's': rq.get('s', rq.get('ks'))}, nontrivial=True)
+        run.case({'unit': rq['op'], 's': rq.get('s', rq.get('ks', rq.get('hex')))}, nontrivial=True)
         run.count('unit:' + rq['op'])
         if a.get('out') != r:
-            run.disagree({'unit': rq['op'], 'input': rq.get('s', rq.get('ks'))}, a.get('out'), r, 'text primitive ' + rq['op'])
+            run.disagree({'unit': rq['op'], 'input': rq.get('s', rq.get('ks', rq.get('hex')))}, a.get('out'), r, 'text primitive ' + rq['op'])
     # constants that exist only after the fix (not extracted, see Model/ListenerHttp.lean)
     consts = {'safe_chars': safe == SAFE_EXPECTED,
               'protocol_version': L.ListenerRequestHandler.protocol_version == 'HTTP/1.0'}
@@ -1161,38 +1192,65 @@ def sessions(run, n, procs):
     return common.pmap(_session_job, jobs, procs=procs, chunksize=2)
 
 
-def with_real_instance_outcomes(model_req):
-    """the same history, parse_instance outcomes taken from the real TupleParser instead of the shared decoder"""
+def for_driver(model_req, mode):
+    """the history as sent to the driver.  mode 'par': the request parser is the model's own parseBytes (strict UTF-8 +
+    XmlParse.par) on the real octets; 'tree': expat's tupletree is a model input; 'tree+inst': additionally the
+    outcomes of the real parse_instance per INSTANCE subtree instead of the shared decoder"""
     evs = []
     for e in model_req['events']:
-        e2 = dict(e)
-        if e2.get('ev') == 'req' and e2.get('inst_real'):
-            e2['inst'] = {'table': e2['inst_real']}
+        e2 = {k: v for k, v in e.items() if k not in ('inst_real', 'hex')}
+        if e2.get('ev') == 'req':
+            if mode == 'par' and 'hex' in e and not PAR_OUT_OF_SCOPE.search(bytes.fromhex(e['hex'])):
+                # documents outside the declared scope of XmlParse.par (DOCTYPE, processing instructions, encodings
+                # other than UTF-8) keep expat's tupletree as the model input
+                e2['xmlmode'] = 'par'
+                e2['hex'] = e['hex']
+                e2.pop('tree', None)
+            if mode == 'tree+inst' and e.get('inst_real'):
+                e2['inst'] = {'table': e['inst_real']}
         evs.append(e2)
     return {'cap': model_req['cap'], 'events': evs}
 
 
+PAR_OUT_OF_SCOPE = re.compile(  # noqa
+    rb'<!DOCTYPE|<\?(?!xml[ \t\r\n])|^\xff\xfe|^\xfe\xff|encoding=["\'](?!utf-?8["\'])', re.I)
+
+
 def compare_session(run, res, ans, second=False):
     if not second:
-        # first pass with the shared decoder Model/CimXmlDec.decInstance inside the model; when that disagrees, a
-        # second pass with the real outcomes of parse_instance tells a gap of the shared decoder (malformed
-        # INSTANCE content, not this property's model) from a disagreement of the listener model
+        # pass 1 (ans): request parser = the model's parseBytes, parse_instance = the shared decoder decInstance.
+        # On disagreement: pass 2 with expat's tupletree as input, pass 3 additionally with the real parse_instance
+        # outcomes.  Agreement in a later pass = a gap of a SHARED model on this input (XmlParse.par under-approximates
+        # expat by design: DOCTYPE, PIs, other encodings; decInstance on malformed INSTANCE content), counted and
+        # noted in the evidence; otherwise a disagreement of the listener model.
         probe = common.Run(PROP, run.tier, run.seed)
         compare_session(probe, res, ans, second=True)
         if not probe.disagreements:
             return
-        ans2 = common.run_driver(PROP, [with_real_instance_outcomes(res['model_req'])])[0]
-        probe2 = common.Run(PROP, run.tier, run.seed)
-        compare_session(probe2, res, ans2, second=True)
-        if not probe2.disagreements:
-            run.count('shared_decoder_gap')
-            if len(run.notes) < 6:
-                d = probe.disagreements[0]
-                run.notes.append('shared decoder decInstance and the real parse_instance differ on a malformed INSTANCE '
-                                 '(reported to the owner of Model/CimXmlDec.lean; the listener model agrees once the real '
-                                 'outcome is supplied): body=' + str(d['case'].get('body'))[:1800])
-            return
-        run.disagreements += probe2.disagreements
+        last = probe
+        for mode, label in (('tree', 'par'), ('tree+inst', 'shared_decoder')):
+            ans2 = common.run_driver(PROP, [for_driver(res['model_req'], mode)])[0]
+            probe2 = common.Run(PROP, run.tier, run.seed)
+            compare_session(probe2, res, ans2, second=True)
+            if not probe2.disagreements:
+                d = last.disagreements[0]
+                body = unb64(d['case'].get('body') or '') if d['case'].get('body') else b''
+                if label == 'par':
+                    scope = 'out_of_scope' if PAR_OUT_OF_SCOPE.search(body) else 'in_scope'
+                    run.count('par_gap:' + scope)
+                    if scope == 'in_scope' and len(run.notes) < 8:
+                        run.notes.append('XmlParse.par (via parseBytes) and expat differ on a document without DOCTYPE/PI/'
+                                         'foreign encoding; the listener model agrees with expat\'s tree as input: body='
+                                         + str(d['case'].get('body'))[:1500])
+                else:
+                    run.count('shared_decoder_gap')
+                    if len(run.notes) < 8:
+                        run.notes.append('shared decoder decInstance and the real parse_instance differ on a malformed '
+                                         'INSTANCE; the listener model agrees once the real outcome is supplied: body='
+                                         + str(d['case'].get('body'))[:1500])
+                return
+            last = probe2
+        run.disagreements += last.disagreements
         return
     mo = ans.get('obs')
     ro = res['real_obs']
@@ -1208,7 +1266,7 @@ def compare_session(run, res, ans, second=False):
         m2 = m
         if isinstance(m, dict) and 'rsp' in m:
             nread = m.get('nread')
-            m2 = {'rsp': m['rsp'], 'nread': None, 'wire': m.get('wire')}
+            m2 = {'rsp': m['rsp'], 'nread': None, 'wire': m.get('wire'), 'bodytree': sort_attrs(m.get('bodytree'))}
             # the parsed Server value has lost its trailing blank (OWS): compare the wire form modulo blanks before CR
             if common.from_cps(m2['wire'] or []).replace(' \r', '\r') == common.from_cps(r.get('wire') or []).replace(' \r', '\r'):
                 m2['wire'] = r.get('wire')
@@ -1256,9 +1314,7 @@ def run(run):
     ]
     t0 = time.time()
     results = sessions(run, nsess, procs=None if run.thorough else 6)
-    answers = common.run_driver(PROP, [{'cap': r['model_req']['cap'],
-                                        'events': [{k: v for k, v in e.items() if k != 'inst_real'}
-                                                   for e in r['model_req']['events']]} for r in results])
+    answers = common.run_driver(PROP, [for_driver(r['model_req'], 'par') for r in results])
     for res, ans in zip(results, answers):
         case = res['case']
         reqs = [e.get('spec', e) for e in case['events'] if e['ev'] in ('req', 'stall')]
@@ -1268,6 +1324,10 @@ def run(run):
         for k, n in res['stats'].items():
             run.count(k, n)
         run.count('sessions')
+        for e in res['model_req']['events']:
+            if e.get('ev') == 'req' and 'hex' in e and common.from_cps(e['method']) == 'POST':
+                run.count('xmlparser:' + ('expat_tree(out of par scope)' if PAR_OUT_OF_SCOPE.search(bytes.fromhex(e['hex']))
+                                          else 'model_parseBytes'))
         run.count('cap:%s' % case['cap'])
         compare_session(run, res, ans)
         for v in res['violations']:
